@@ -79,7 +79,68 @@ def grid_specs(n_dim, quick):
     return specs
 
 
+def run_threshold_unit(case):
+    """All arrays of a shape over a 3-value alphabet (so: ties everywhere) x limits at / between the partial sums, straight
+    through HighestDensityContour.cumsum_biggest_until (the threshold search the contour uses): the summed cells hold at most
+    `limit`, adding the densest excluded cell would exceed it, no excluded cell is denser than an enclosed one, and the
+    reported value is the least dense enclosed one."""
+    import itertools
+    import warnings
+    from virocon import HighestDensityContour
+    shape = tuple(case["shape"])
+    size = int(np.prod(shape))
+    viol = []
+    n = 0
+
+    def bad(clause, detail):
+        sig = {"check": "threshold_search", "clause": clause}
+        if not any(v["sig"] == sig for v in viol):
+            viol.append({"sig": sig, "detail": detail, "case": dict(case, only=detail.get("array"), only_limit=detail.get("limit"))})
+
+    combos = [tuple(case["only"])] if case.get("only") else itertools.product((1, 2, 3), repeat=size)
+    for vals in combos:
+        a = (np.array(vals, dtype=float) * case["unit"]).reshape(shape)
+        srt = np.sort(a.ravel())[::-1]
+        cs = np.cumsum(srt)
+        limits = sorted(set([float(c_) for c_ in cs] + [float(c_ + 0.4 * case["unit"]) for c_ in cs[:-1]] + [float(cs[-1] * 1.5)]))
+        if case.get("only_limit") is not None:
+            limits = [case["only_limit"]]
+        for lim in limits:
+            n += 1
+            a_in = a.copy()
+            with warnings.catch_warnings(record=True) as wl:
+                warnings.simplefilter("always")
+                try:
+                    S, last = HighestDensityContour.cumsum_biggest_until(a, lim)
+                except Exception as e:
+                    bad("exception", {"array": list(vals), "limit": lim, "type": type(e).__name__, "msg": str(e)[:120]})
+                    continue
+            warned = any(issubclass(w.category, RuntimeWarning) for w in wl)
+            if not np.array_equal(a, a_in):
+                bad("input_mutated", {"array": list(vals), "limit": lim})
+            S = np.asarray(S).astype(bool)
+            tot = float(a.sum())
+            if warned != (tot < lim - 1e-12) and abs(tot - lim) > 1e-12:
+                bad("warning_iff_unreachable", {"array": list(vals), "limit": lim, "warned": warned, "total": tot})
+            if S.shape != a.shape or not S.any():
+                bad("no_cell_enclosed", {"array": list(vals), "limit": lim})
+                continue
+            s_in = float(a[S].sum())
+            if s_in > lim + 1e-12:
+                bad("region_exceeds_content", {"array": list(vals), "limit": lim, "sum": s_in})
+            if (~S).any():
+                if s_in + float(a[~S].max()) <= lim - 1e-12:
+                    bad("region_too_small", {"array": list(vals), "limit": lim, "sum": s_in, "densest_excluded": float(a[~S].max())})
+                if float(a[S].min()) < float(a[~S].max()):
+                    bad("excluded_cell_denser_than_enclosed", {"array": list(vals), "limit": lim})
+            if float(last) != float(a[S].min()):
+                bad("reported_value_not_least_enclosed", {"array": list(vals), "limit": lim, "reported": float(last), "least_enclosed": float(a[S].min())})
+    return {"viol": viol, "n": n, "nontrivial": n, "outcomes": [f"unit:{len(viol)}"], "count": {"threshold_search_calls": n}}
+
+
 def run_case(case):
+    if case.get("kind") == "threshold_unit":
+        return run_threshold_unit(case)
     mname, alpha, lk, ds = case["model"], case["alpha"], case["limits"], tuple(case["deltas"])
     viol = []
 
@@ -141,9 +202,15 @@ def main(ctx):
                 "subset of the grid, or the RuntimeWarning case.")
     ctx.assumptions = ["grid read back from the object (cell_center_coordinates, deltas); probabilities recomputed with the "
                        "model's own cdfs by explicit loops with scalar given",
-                       "exact density ties at fm are treated as a set of which the implementation may include any non-empty part"]
+                       "exact density ties at fm are treated as a set of which the implementation may include any non-empty part; the tie behaviour itself is decided on the threshold search (cumsum_biggest_until) with all small arrays over a 3-value alphabet"]
     cases = all_cases(ctx)
     for c in cases:
         ctx.axis("model", c["model"])
         ctx.axis("limits", c["limits"])
+    # the threshold search on its own: ALL arrays over a three-value alphabet (ties at every rank) x limits at and between
+    # all partial sums (ties at the threshold never occur in the asymmetric models above)
+    for shape in ([1], [2], [3], [4], [5], [2, 2], [2, 3], [2, 2, 2]) if ctx.quick else ([1], [2], [3], [4], [5], [6], [7], [2, 2], [2, 3], [3, 3], [2, 2, 2]):
+        for unit in (0.05, 1.0 / 3.0, 1e-7):
+            cases.append({"kind": "threshold_unit", "shape": shape, "unit": unit, "model": "threshold_unit", "limits": "n/a"})
+            ctx.axis("model", "threshold_unit")
     ctx.pmap(cases, label="hdc")
